@@ -630,10 +630,10 @@ theorem inertBody_parts (s : Str) (h : inertBody s = true) :
   have := h1 c hc
   simpa [okChar] using this
 
-/-- the span token classes covered: every class except `Math` and `GithubWiki` (the two XWiki classes
-    are not modelled: their `find` returns nothing) -/
+/-- the span token classes covered: every class except `Math`, `GithubWiki` and the two XWiki macro
+    classes (`XWikiBlockMacroStart` / `XWikiBlockMacroEnd` fire on `{{name}}` lines, which inert text may contain) -/
 def inertClass : STok → Bool
-  | .math | .githubWiki => false
+  | .math | .githubWiki | .xwikiMacroStart | .xwikiMacroEnd => false
   | _ => true
 
 /-- except for `LineBreak`, no class finds anything in inert text (newlines allowed) -/
@@ -659,8 +659,8 @@ theorem findOne_inertBody (s : Str) (h : ScanOk s) (t : STok) (ht : inertClass t
   | lineBreak => exact absurd rfl hlb
   | math => cases ht
   | githubWiki => cases ht
-  | xwikiMacroStart => rfl
-  | xwikiMacroEnd => rfl
+  | xwikiMacroStart => cases ht
+  | xwikiMacroEnd => cases ht
 
 theorem findOne_lineBreak (s : Str) (hn : '\n' ∉ s) : findOne s [] [] .lineBreak = [] := by
   simp only [findOne, List.map_eq_nil_iff]
@@ -1628,9 +1628,119 @@ theorem mathAt_none (prev : Option Char) (c : Char) (rest : Str) (h : c ≠ '$')
   unfold mathAt
   simp [countLeading_ne _ _ _ h]
 
-/-- with no `$` and no `[[` in the text, `Math` and `GithubWiki` find nothing either: every class -/
+/-! ### the two XWiki macro classes on one-line text
+
+  `XWikiBlockMacroStart.pattern` ends in `\s*\n`: without a newline in the text it cannot match.
+  `XWikiBlockMacroEnd.pattern` is anchored by `^` (re.MULTILINE): without a newline it can match at
+  position 0 only, where it needs `\s*\{\{/`. -/
+
+open Mistletoe.InlineScanX in
+theorem wsNlAux_no_nl : ∀ (r : Str) (i : Nat) (last : Option Nat), '\n' ∉ r → wsNlAux r i last = last
+  | [], _, _, _ => by simp [wsNlAux]
+  | c :: rest, i, last, h => by
+    have hc : c ≠ '\n' := fun e => h (by simp [e])
+    have hr : '\n' ∉ rest := fun m => h (List.mem_cons_of_mem _ m)
+    simp only [wsNlAux]
+    split
+    · rw [wsNlAux_no_nl rest (i + 1) _ hr]; simp [hc]
+    · rfl
+
+open Mistletoe.InlineScanX in
+theorem startBody_no_nl : ∀ (r : Str) (i : Nat) (prev : Char), '\n' ∉ r → startBody r i prev = none
+  | [], _, _, _ => by simp [startBody]
+  | c :: rest, i, prev, h => by
+    have hc : c ≠ '\n' := fun e => h (by simp [e])
+    have hr : '\n' ∉ rest := fun m => h (List.mem_cons_of_mem _ m)
+    have ih := startBody_no_nl rest (i + 1) c hr
+    simp only [startBody]
+    split
+    · rename_i r heq
+      split at heq
+      · rename_i after
+        have ha : '\n' ∉ after := fun m => hr (List.mem_cons_of_mem _ m)
+        simp [wsNl, wsNlAux_no_nl after 0 none ha] at heq
+      · cases heq
+    · simp [hc, ih]
+
+open Mistletoe.InlineScanX in
+theorem xwikiStartAt_no_nl (prev : Option Char) (r : Str) (h : '\n' ∉ r) : xwikiStartAt prev r = none := by
+  unfold xwikiStartAt
+  split
+  · rfl
+  · split
+    · rename_i body
+      have hb : '\n' ∉ body := fun m => h (List.mem_cons_of_mem _ (List.mem_cons_of_mem _ m))
+      cases hsp : Scan.span isWord body with
+      | mk w r1 =>
+        have hr1 : '\n' ∉ r1 := by
+          intro m
+          obtain ⟨e, _⟩ := span_eq isWord body w r1 hsp
+          exact hb (by rw [e]; exact List.mem_append_right _ m)
+        simp only
+        split
+        · rfl
+        · rw [startBody_no_nl r1 _ _ hr1]
+    · rfl
+
+/-- `XWikiBlockMacroStart` finds nothing in a text without newline -/
+theorem findOne_xwikiStart (s : Str) (hn : '\n' ∉ s) : findOne s [] [] .xwikiMacroStart = [] := by
+  simp only [findOne, List.map_eq_nil_iff]
+  exact findIter_nil _ (fun s => '\n' ∉ s) (fun _ _ hq hm => hq (List.mem_cons_of_mem _ hm))
+    (fun p c r hq => xwikiStartAt_no_nl p (c :: r) hq) s hn
+
+/-- the text does not begin with `\s*\{\{/` (the only place where `XWikiBlockMacroEnd` can fire on one-line text) -/
+def xmacroOk (s : Str) : Bool :=
+  match (Scan.span pyIsSpace s).2 with
+  | '{' :: '{' :: '/' :: _ => false
+  | _ => true
+
+open Mistletoe.InlineScanX in
+theorem xwikiEndAt_mid (c : Char) (r : Str) (h : c ≠ '\n') : xwikiEndAt (some c) r = none := by
+  unfold xwikiEndAt
+  simp [h]
+
+open Mistletoe.InlineScanX in
+theorem xwikiEndAt_head (s : Str) (h : xmacroOk s = true) : xwikiEndAt none s = none := by
+  unfold xwikiEndAt
+  unfold xmacroOk at h
+  cases hsp : Scan.span pyIsSpace s with
+  | mk ws r1 =>
+    rw [hsp] at h
+    simp only at h ⊢
+    split
+    · rename_i h0; simp at h0
+    · split
+      · simp at h
+      · rfl
+
+open Mistletoe.InlineScanX in
+theorem findIterAux_xwikiEnd_mid : ∀ (fuel pos : Nat) (p : Char) (s : Str), p ≠ '\n' → '\n' ∉ s →
+    findIterAux xwikiEndAt fuel pos (some p) s = []
+  | 0, _, _, _, _, _ => by simp [findIterAux]
+  | _ + 1, _, _, [], _, _ => by simp [findIterAux]
+  | fuel + 1, pos, p, c :: rest, hp, h => by
+    have hc : c ≠ '\n' := fun e => h (by simp [e])
+    have hr : '\n' ∉ rest := fun m => h (List.mem_cons_of_mem _ m)
+    simp only [findIterAux, xwikiEndAt_mid p (c :: rest) hp]
+    exact findIterAux_xwikiEnd_mid fuel (pos + 1) c rest hc hr
+
+/-- `XWikiBlockMacroEnd` finds nothing in a text without newline that does not begin with `\s*\{\{/` -/
+theorem findOne_xwikiEnd (s : Str) (hn : '\n' ∉ s) (hx : xmacroOk s = true) : findOne s [] [] .xwikiMacroEnd = [] := by
+  simp only [findOne, List.map_eq_nil_iff]
+  unfold findIter
+  cases s with
+  | nil => simp [findIterAux]
+  | cons c rest =>
+    have hc : c ≠ '\n' := fun e => hn (by simp [e])
+    have hr : '\n' ∉ rest := fun m => hn (List.mem_cons_of_mem _ m)
+    simp only [List.length_cons, findIterAux, xwikiEndAt_head (c :: rest) hx]
+    exact findIterAux_xwikiEnd_mid _ _ c rest hc hr
+
+/-- with no `$`, no `[[` and no leading `{{/` in the text, `Math`, `GithubWiki` and the XWiki macro classes find
+    nothing either: every class.  (`hx` is needed: under a token list with `XWikiBlockMacroEnd` the inert text
+    `{{/info}}` is one `XWikiBlockMacroEnd` token, in the model as in the code.) -/
 theorem findAll_inert_all (s : Str) (types : List STok) (fn : Footnotes.Table)
-    (h : inertText s = true) (hd : '$' ∉ s) (hw : wikiOk s = true) : findAll s types fn = .ok [] := by
+    (h : inertText s = true) (hd : '$' ∉ s) (hw : wikiOk s = true) (hx : xmacroOk s = true) : findAll s types fn = .ok [] := by
   have h' := h
   simp only [inertText, Bool.and_eq_true, Bool.not_eq_eq_eq_not, Bool.not_true, List.contains_eq_mem,
     decide_eq_false_iff_not] at h
@@ -1649,15 +1759,25 @@ theorem findAll_inert_all (s : Str) (types : List STok) (fn : Footnotes.Table)
       exact wikiFindAux_nil _ _ s hw
     · by_cases hlb : t = .lineBreak
       · subst hlb; exact findOne_lineBreak s h.2
-      · refine findOne_inertBody s (inertBody_parts s h.1).1 t ?_ hlb
-        cases t <;> simp_all [inertClass]
+      · by_cases hxs : t = .xwikiMacroStart
+        · subst hxs; exact findOne_xwikiStart s h.2
+        · by_cases hxe : t = .xwikiMacroEnd
+          · subst hxe; exact findOne_xwikiEnd s h.2 hx
+          · refine findOne_inertBody s (inertBody_parts s h.1).1 t ?_ hlb
+            cases t <;> simp_all [inertClass]
 
 theorem tokenizeInner_inert_all (types : List STok) (fn : Footnotes.Table) (s : Str)
-    (h : inertText s = true) (hd : '$' ∉ s) (hw : wikiOk s = true) (hne : s ≠ []) :
+    (h : inertText s = true) (hd : '$' ∉ s) (hw : wikiOk s = true) (hx : xmacroOk s = true) (hne : s ≠ []) :
     tokenizeInner types fn s = .ok [.rawText s] := by
-  rw [tokenizeInner_no_candidates types fn s (findAll_inert_all s types fn h hd hw) hne]
+  rw [tokenizeInner_no_candidates types fn s (findAll_inert_all s types fn h hd hw hx) hne]
   simp only [inertText, Bool.and_eq_true] at h
   rw [unescape_inert s (inertBody_parts s h.1).2.1]
+
+/-- the hypothesis `xmacroOk` cannot be dropped: the inert text `{{/info}}` is one macro token -/
+example : inertText "{{/info}}".toList = true ∧ !"{{/info}}".toList.contains '$' ∧ wikiOk "{{/info}}".toList = true ∧
+    (match tokenizeInner [.xwikiMacroEnd] [] "{{/info}}".toList with
+     | .ok [.xwikiMacroEnd c] => c == "{{/info}}".toList
+     | _ => false) = true := by decide +kernel
 
 /-! ## `Document(text)` for a `str` made of "\n"-terminated lines -/
 
